@@ -65,9 +65,7 @@ type epochInfo struct {
 	known   map[string][]string // keys stored through addresses rooted at known allocations (id terms)
 	stable     map[string]bool  // stable ghosts (changed only by contracts naming them)
 	ghostSet   map[string]bool  // ghosts named by `sets` of contracts reachable in the havoced region
-	younger    string           // call havoc limited to objects at least as young as this root id term
-	object     string           // ... or to the object with this root id term
-	kinds      map[string]bool  // ... or to these heap kinds (any object)
+	mods       []modTerm        // call havoc limited by an assumed frame (union of clauses)
 	clockBefore string          // allocation clock before the call (objects younger than it are the callee's)
 	entryClock string           // loop havoc: allocation clock at loop entry (frame covers older objects only)
 	newClock   string           // allocation clock after the havoc (loaded pointers are not younger)
@@ -94,23 +92,33 @@ func (ei *epochInfo) extOnly(key string) bool { return ei.all || ei.unknown[key]
 // restrict: for a call havoc with an assumed frame, the condition under which cell p of heap key
 // may have changed ("" = no restriction: any non-private cell may change).
 func (ei *epochInfo) restrict(key string) string {
-	if ei.younger == "" && ei.object == "" && ei.kinds == nil {
-		return ""
-	}
-	if ei.kinds[key] {
+	if ei.mods == nil {
 		return ""
 	}
 	var alts []string
-	if ei.younger != "" {
-		alts = append(alts, fmt.Sprintf("(>= (root p) %s)", ei.younger))
-	}
-	if ei.object != "" {
-		alts = append(alts, fmt.Sprintf("(= (root p) %s)", ei.object))
+	for _, m := range ei.mods {
+		if len(m.kinds) > 0 && !m.kinds[key] {
+			continue
+		}
+		switch {
+		case m.object != "":
+			alts = append(alts, fmt.Sprintf("(= (root p) %s)", m.object))
+		case m.younger != "":
+			alts = append(alts, fmt.Sprintf("(>= (root p) %s)", m.younger))
+		default:
+			return "" // the whole kind may change
+		}
 	}
 	if ei.clockBefore != "" {
 		alts = append(alts, fmt.Sprintf("(> (root p) %s)", ei.clockBefore))
 	}
 	return "(or " + strings.Join(alts, " ") + " false)"
+}
+
+// modTerm is an evaluated ModClause (root id terms instead of expressions).
+type modTerm struct {
+	object, younger string
+	kinds           map[string]bool
 }
 
 // shared state between a function's VC and its inlined callees
@@ -657,22 +665,17 @@ func (v *VC) heapSet(h *Heap, key, term string) string {
 // havocAll models a call to code we know nothing about: every cell that is not a private local
 // may change; results of later loads are arbitrary (but never private pointers). Ghost state is
 // havoced too when ghosts is set (callee without any contract).
-func (v *VC) havocAll(h *Heap, ghosts bool) { v.havocFramed(h, ghosts, "", "", nil) }
+func (v *VC) havocAll(h *Heap, ghosts bool) { v.havocFramed(h, ghosts, nil) }
 
-func (v *VC) havocYounger(h *Heap, ghosts bool, younger string) {
-	v.havocFramed(h, ghosts, younger, "", nil)
-}
-
-// havocFramed: a call whose (assumed) frame says it writes only to objects at least as young as
-// `younger`, to the object `object`, to cells of the heap kinds `kinds`, and to what it allocates.
-func (v *VC) havocFramed(h *Heap, ghosts bool, younger, object string, kinds map[string]bool) {
+// havocFramed: a call whose (assumed) frame is the union of mods (nil = anything may change).
+func (v *VC) havocFramed(h *Heap, ghosts bool, mods []modTerm) {
 	before, nw := v.advanceClock(h)
 	keys := make([]string, 0, len(h.m))
 	for k := range h.m {
 		keys = append(keys, k)
 	}
 	sort.Strings(keys)
-	ei := &epochInfo{kind: "havoc", parent: h.epoch, all: true, ghosts: ghosts, newClock: nw, stable: v.P.db.StableGhosts, younger: younger, object: object, kinds: kinds, clockBefore: before}
+	ei := &epochInfo{kind: "havoc", parent: h.epoch, all: true, ghosts: ghosts, newClock: nw, stable: v.P.db.StableGhosts, mods: mods, clockBefore: before}
 	ne := v.newEpoch(ei)
 	for _, k := range keys {
 		if k == clockKey || (strings.HasPrefix(k, "ghost:") && (!ghosts || v.P.db.StableGhosts[strings.TrimPrefix(k, "ghost:")])) {
